@@ -1073,9 +1073,9 @@ def ones_like(a, dtype=None, **kw):
     return _filled(a.shape, 1, dtype or a.dtype)
 
 
-def full_like(a, v, dtype=None, **kw):
+def full_like(a, fill_value, dtype=None, **kw):
     a = asarray(a)
-    return _filled(a.shape, v, dtype or a.dtype)
+    return _filled(a.shape, fill_value, dtype or a.dtype)
 
 
 empty_like = zeros_like
